@@ -545,45 +545,82 @@ def _file_rec(path):
             "sigs": [codes(s) if isinstance(s, str) else [] for s in d["sigs"]]}
 
 
-def sign_event(via, path, before_count, code, digest, pub=None, given=None):
-    rec = _file_rec(path)
-    d = read_file(path) or {"sigs": []}
-    added = d["sigs"][-1] if (code == 0 and len(d["sigs"]) > before_count) else None
+def _file_text_for_verification(d):
+    """the message (wrapped) for the version a file on disk names, from the harness's own encoders"""
+    try:
+        h = bytes.fromhex("".join(c for c in d["hash"] if c in "0123456789abcdefABCDEF"))
+        n = d["iter"]
+        if type(n) is not int or n < 0:
+            return b""
+        return eip191(msg_text(h, n))
+    except Exception:
+        return b""
+
+
+def sign_event(via, path, before_count, code, pub=None, given=None, args=None):
+    """what one signapp invocation did to the file at -o. The added signature is verified (python-ecdsa,
+    under the signing key) for the digest of the version the file names AFTER the step."""
+    d = read_file(path)
+    exists = d is not None
+    rec = _file_rec(path) if exists else {"hash": [], "iter": 0, "sigs": []}
+    sigs = d["sigs"] if exists else []
+    added = sigs[-1] if (code == 0 and via != "message" and len(sigs) > before_count
+                         and isinstance(sigs[-1], str)) else None
+    text = _file_text_for_verification(d) if exists else b""
     ver = "na"
     if via in ("key", "eth") and added is not None:
         try:
             raw = bytes.fromhex(added)
         except Exception:
             raw = b""
-        ver = "t" if ecdsa_verifies(pub, digest, raw) else "f"
-    return {"k": "sign", "via": via, "given": codes(given) if given is not None else [],
+        ver = "t" if ecdsa_verifies(pub, keccak256(text), raw) else "f"
+    if args is None:
+        arec = {"given": "f", "hash": [], "iter": {"form": "str", "val": 0, "s": []}}
+    else:
+        arec = {"given": "t", "hash": codes(args["hash"]),
+                "iter": {"form": "str", "val": 0, "s": codes(args["iter"])}}
+    return {"k": "sign", "via": via, "args": arec, "given": codes(given) if given is not None else [],
             "ok": "t" if code == 0 else "f", "sig": codes(added) if added is not None else [],
-            "file": rec, "verifies": ver}
+            "exists": "t" if exists else "f", "file": rec, "verifies": ver, "ver_of": codes(text)}
 
 
-def tool_key(path, key, digest, prefix=False):
-    before = len((read_file(path) or {"sigs": []})["sigs"])
-    code, _ = run_signapp(["key", "-o", path, "-k", ("0x" if prefix else "") + key.raw.hex()])
-    return sign_event("key", path, before, code, digest, pub=key.pub)
+def _count(path):
+    d = read_file(path)
+    return len(d["sigs"]) if d else 0
 
 
-def tool_eth(path, key, digest, high_s=False, eth_path=None):
-    before = len((read_file(path) or {"sigs": []})["sigs"])
+def _argv_args(args):
+    return ["-a", args["app_path"], "-i", args["iter"]] if args else []
+
+
+def tool_key(path, key, args=None):
+    before = _count(path)
+    code, _ = run_signapp(["key", "-o", path, "-k", key.raw.hex()] + _argv_args(args))
+    return sign_event("key", path, before, code, pub=key.pub, args=args)
+
+
+def tool_eth(path, key, high_s=False, eth_path=None, args=None):
+    before = _count(path)
     world = World(EthAppDevice(key, high_s=high_s), "hid")
     install(world)
-    import admin.misc as am
     import admin.dongle_eth as de
     de.getDongle = world.get_dongle_hid
-    argv = ["eth", "-o", path] + (["-p", eth_path] if eth_path else [])
+    argv = ["eth", "-o", path] + (["-p", eth_path] if eth_path else []) + _argv_args(args)
     code, _ = run_signapp(argv)
-    e = sign_event("eth", path, before, code, digest, pub=key.pub)
+    e = sign_event("eth", path, before, code, pub=key.pub, args=args)
     return e, world
 
 
-def tool_manual(path, sig_text):
-    before = len((read_file(path) or {"sigs": []})["sigs"])
-    code, _ = run_signapp(["manual", "-o", path, "-g", sig_text])
-    return sign_event("manual", path, before, code, None, given=sig_text)
+def tool_manual(path, sig_text, args=None):
+    before = _count(path)
+    code, _ = run_signapp(["manual", "-o", path, "-g", sig_text] + _argv_args(args))
+    return sign_event("manual", path, before, code, given=sig_text, args=args)
+
+
+def tool_message(path, args=None):
+    before = _count(path)
+    code, _ = run_signapp(["message", "-o", path] + _argv_args(args))
+    return sign_event("message", path, before, code, args=args)
 
 
 def roundtrip_event(path, scratch, tag):
@@ -691,9 +728,11 @@ def authorize_object(obj, device):
 # ----------------------------------------------------------------------------------------------
 def execute(recipe, scratch, tag):
     """Run one fully concrete recipe (JSON-serialisable, also the replay artefact) on the real code:
-      src: api | file | signapp        hash: {kind, s, py?}   iter: {form, val, s}   sigs: [text]
-      app: hex of the app image (src signapp)
-      tools: [{op: key, key: hex} | {op: eth, key: hex, high_s, path} | {op: manual, sig: text}]
+      src: api | file | signapp | absent (no authorization file to start with)
+      hash: {kind, s, py?}   iter: {form, val, s}   sigs: [text]      app: hex of the app image (src signapp)
+      apps: {name: hex image}      (images the signapp steps may name with -a)
+      tools: [{op: key, key: hex} | {op: eth, key: hex, high_s, path} | {op: manual, sig: text}
+              | {op: message}], each optionally with args: {app: name, iter: text}  (-a / -i)
       roundtrip: bool
       device: {authorizers: [hex pub], threshold, cur}   via: admin | dongle
     Returns (events, info)."""
@@ -702,9 +741,13 @@ def execute(recipe, scratch, tag):
     if os.path.exists(path):
         os.unlink(path)
     evs = []
-    if recipe["src"] == "signapp":
+    obj = None
+    if recipe["src"] == "absent":
+        pass
+    elif recipe["src"] == "signapp":
         obj, ev, _, _ = build_signapp(bytes.fromhex(recipe["app"]), iin["s"], path,
                                       os.path.join(scratch, "app_%s.hex" % tag))
+        evs.append(ev)
     elif recipe["src"] == "api":
         obj, ev = build_api(hin, iin, sigs)
         if obj is not None:
@@ -712,26 +755,33 @@ def execute(recipe, scratch, tag):
         else:
             with open(path, "w") as f:
                 f.write(file_text(hin, iin, sigs))
+        evs.append(ev)
     else:
         obj, ev = build_file(hin, iin, sigs, path)
-    evs.append(ev)
+        evs.append(ev)
     info = {"accepted": obj is not None, "exc": None, "success_at": None}
-    if obj is not None and (recipe.get("tools") or recipe.get("roundtrip")):
-        v = obj.signer_version
-        try:
-            digest = oracle_digest(bytes.fromhex("".join(c for c in hin["s"] if c in "0123456789abcdefABCDEF")),
-                                   v.iteration)
-        except Exception:
-            digest = bytes(32)
+    apps = {}
+    for name, image in (recipe.get("apps") or {}).items():
+        data = bytes.fromhex(image)
+        ap = os.path.join(scratch, "app_%s_%s.hex" % (tag, name))
+        with open(ap, "w") as f:
+            f.write(intel_hex(data))
+        apps[name] = {"app_path": ap, "hash": hashlib.sha256(data).hexdigest()}
+    if obj is not None or recipe["src"] == "absent":
         for t in recipe.get("tools", []):
+            args = None
+            if t.get("args"):
+                args = dict(apps[t["args"]["app"]], iter=t["args"]["iter"])
             if t["op"] == "key":
-                evs.append(tool_key(path, Key(raw=bytes.fromhex(t["key"])), digest))
+                evs.append(tool_key(path, Key(raw=bytes.fromhex(t["key"])), args=args))
             elif t["op"] == "eth":
-                evs.append(tool_eth(path, Key(raw=bytes.fromhex(t["key"])), digest, high_s=t.get("high_s", False),
-                                    eth_path=t.get("path"))[0])
+                evs.append(tool_eth(path, Key(raw=bytes.fromhex(t["key"])), high_s=t.get("high_s", False),
+                                    eth_path=t.get("path"), args=args)[0])
+            elif t["op"] == "message":
+                evs.append(tool_message(path, args=args))
             else:
-                evs.append(tool_manual(path, t["sig"]))
-        if recipe.get("roundtrip"):
+                evs.append(tool_manual(path, t["sig"], args=args))
+        if recipe.get("roundtrip") and os.path.exists(path):
             evs.append(roundtrip_event(path, scratch, tag))
     d = recipe.get("device")
     if d is not None:
